@@ -307,7 +307,42 @@ func (n *quotedString) Text() string {
 
 // String returns the SQL/JSON path-encoded quoted string.
 func (n *quotedString) String() string {
-	return strconv.Quote(n.str)
+	return quote(n.str)
+}
+
+// quote returns str as a double-quoted jsonpath string literal. It is
+// strconv.Quote except for the two escapes Go writes that the jsonpath
+// scanner does not read back: \a (there, a backslash before any other
+// character stands for that character) and \UXXXXXXXX.
+func quote(str string) string {
+	quoted := strconv.Quote(str)
+	if !strings.Contains(quoted, `\a`) && !strings.Contains(quoted, `\U`) {
+		return quoted
+	}
+
+	buf := new(strings.Builder)
+	for i := 0; i < len(quoted); i++ {
+		if quoted[i] != '\\' || i+1 == len(quoted) {
+			buf.WriteByte(quoted[i])
+			continue
+		}
+		switch quoted[i+1] {
+		case 'a':
+			buf.WriteString(`\u0007`)
+			i++
+		case 'U':
+			// \U and eight hex digits; \u{...} takes up to six.
+			buf.WriteString(`\u{` + strings.TrimLeft(quoted[i+2:i+10], "0") + `}`)
+			i += 9
+		default:
+			// Copy the escape so that the character after the backslash is
+			// not taken for the start of another escape.
+			buf.WriteByte(quoted[i])
+			buf.WriteByte(quoted[i+1])
+			i++
+		}
+	}
+	return buf.String()
 }
 
 // writeTo writes n.String to buf.
@@ -879,7 +914,7 @@ func (n *RegexNode) writeTo(buf *strings.Builder, _, withParens bool) {
 	}
 
 	writeOperand(buf, n.operand, operandParens(n.operand, n.priority()))
-	fmt.Fprintf(buf, " like_regex %q%v", n.pattern, n.flags)
+	fmt.Fprintf(buf, " like_regex %v%v", quote(n.pattern), n.flags)
 
 	if withParens {
 		buf.WriteRune(')')
